@@ -283,3 +283,36 @@ Fixpoint all_emits (a : hact) : list Z :=
   end.
 (* the order in which the given statements occur in the final list *)
 Definition restrict (keep : list Z) (l : list Z) : list Z := filter (fun x => existsb (Z.eqb x) keep) l.
+
+(* A repaired bookkeeping (proposed, not in /repo today): every hygienized function owns a cursor into the
+   statement list; an injection at position k moves every OTHER cursor at or after k one step on.
+   Executable model only, used for the correspondence when the scrape finds this variant. *)
+Record hcst := mkHC {
+  hc_nodes : list Z;
+  hc_cur : option nat;                 (* statnodes.addindex *)
+  hc_fn : option nat;                  (* the function whose cursor is live in statnodes.addindex *)
+  hc_saved : nat -> nat                (* cursor.index of each hygienized function *)
+}.
+Definition hc_emit (s : hcst) (x : Z) : hcst :=
+  match hc_cur s with
+  | Some k =>
+    let bump := fun h' => if (match hc_fn s with Some f => negb (Nat.eqb f h') | None => true end) && Nat.leb k (hc_saved s h')
+                          then S (hc_saved s h') else hc_saved s h' in
+    mkHC (insert_at k x (hc_nodes s)) (Some (S k)) (hc_fn s) bump
+  | None => mkHC (hc_nodes s ++ [x]) None (hc_fn s) (hc_saved s)
+  end.
+Fixpoint hc_run (s : hcst) (a : hact) {struct a} : hcst :=
+  match a with
+  | HEmit x => hc_emit s x
+  | HCall h body =>
+    let old := hc_cur s in
+    let oldfn := hc_fn s in
+    let saved1 := match oldfn, old with Some f, Some o => set_saved (hc_saved s) f o | _, _ => hc_saved s end in
+    let s1 := mkHC (hc_nodes s) (Some (saved1 h)) (Some h) saved1 in
+    let s2 := (fix go (b : list hact) (st : hcst) : hcst :=
+                 match b with [] => st | a' :: r => go r (hc_run st a') end) body s1 in
+    let pos := match hc_cur s2 with Some k => k | None => saved1 h end in
+    let saved' := set_saved (hc_saved s2) h pos in
+    let old' := match oldfn with Some f => Some (saved' f) | None => old end in
+    mkHC (hc_nodes s2) old' oldfn saved'
+  end.
